@@ -189,3 +189,7 @@ def main(sess):
     for fam in fams:
         if not only or fam in only:
             run_family(sess, fam)
+    if not only or 'eval' in only:
+        # evaluation-time crashes: arithmetic on arbitrary operands (driver of C15)
+        from drivers import c15
+        c15.fam_calc(sess)
